@@ -15,10 +15,10 @@ func init() {
 	register(&Rule{ID: "E-STABLE-SORT", Props: []string{"C13", "C02", "C14"}, Floor: 1,
 		Doc: "the helpers the SortByNode case of evaluate dispatches to (transitively, within the repository) call a stable sort (sort.Stable, sort.SliceStable, slices.SortStableFunc) and no unstable one",
 		Run: ruleEStableSort})
-	register(&Rule{ID: "E-LESS-STRICT", Props: []string{"C13"}, Floor: 2,
+	register(&Rule{ID: "E-LESS-STRICT", Props: []string{"C13"}, Floor: 1,
 		Doc: "every Less method of a repository type compares strictly (< or >, never <= or >=): a non-strict Less breaks stability and the sort contract",
 		Run: ruleELessStrict})
-	register(&Rule{ID: "E-SWAP-COMPLETE", Props: []string{"C13"}, Floor: 2,
+	register(&Rule{ID: "E-SWAP-COMPLETE", Props: []string{"C13"}, Floor: 1,
 		Doc: "every Swap method exchanges elements i and j of every slice field of its receiver (items and keys must move together)",
 		Run: ruleESwapComplete})
 	register(&Rule{ID: "E-CMP-PURE", Props: []string{"C13", "C03"}, Floor: 1,
